@@ -4,3 +4,4 @@ from . import model  # noqa: F401  class tables, ghost state, shared predicates
 from . import engines  # noqa: F401
 from . import callbacks  # noqa: F401
 from . import statemachine  # noqa: F401
+from . import events  # noqa: F401
